@@ -44,6 +44,16 @@ def check_indexing(obj, model, what, info, picks, eq=lambda a, b: a == b):
             raise Violation("%s:getitem-accepts-invalid" % what, "obj[%d] returned %r for length %d" % (i, got, n))
         if not eq(got, model[i]):
             raise Violation("%s:getitem-value" % what, "obj[%d] = %r, logical element %r (length %d)" % (i, got, model[i], n))
+        # what the caller does with a returned element is the caller's business: editing a returned row must not
+        # change what the object returns for that index afterwards
+        if isinstance(got, list) and got:
+            got[0] = 12345
+            got.append(6789)
+            got.reverse()
+            again = obj.__getitem__(i)
+            if not eq(again, model[i]):
+                raise Violation("%s:getitem-aliased" % what, "after the caller edited the list returned by obj[%d], obj[%d] = %r, logical element %r" % (i, i, again, model[i]))
+            info.cls("returned-row-edited-then-read-again")
         info.cls("negative-index", i < 0)
     info.cls("out-of-range-index")
 
